@@ -18,6 +18,8 @@ def plan(tier, seed):
         specs.append({"name": f"padding-keywords-{gen.SHORT[sch]}", "kind": "padding", "scheme": sch,
                       "rounds": 25 if tier == "quick" else 600, "budget_s": 60 if tier == "quick" else 400})
     for j in range(2 if tier == "quick" else 4):
+        specs.append({"name": f"feedback-keywords-{j}", "kind": "feedback", "index": j * 4,
+                      "budget_s": 12 if tier == "quick" else 200})
         specs.append({"name": f"steered-values-{j}", "kind": "steered", "index": j * 3,
                       "budget_s": 10 if tier == "quick" else 200})
     return specs
@@ -106,6 +108,9 @@ def run_shard(spec, acc, ctx):
         return
     if spec.get("kind") == "steered":
         eng.run_steered(spec, acc, ctx, "absent")
+        return
+    if spec.get("kind") == "feedback":
+        eng.run_feedback(spec, acc, ctx, "absent")
         return
     eng.run(spec, acc, ctx, "absent")
 
